@@ -20,12 +20,12 @@ theorem SafeInvG.of_fst_eq {α : Type} {g : Int} {p : Streams × α} {t' : Strea
 /-- close the goal `SafeInvG g X`, peel a flow function, or peel a frame primitive -/
 macro "safe_step" : tactic => `(tactic| first
   | with_reducible assumption
-  | safe_peel
+  | (guard_not_mk; safe_peel)
   | apply_ih
   | (with_reducible apply SafeInvG.fr; (· fr_peel; with_reducible exact Fr.refl _))
   | (with_reducible apply SafeInvG.of_fst_eq; (· with_reducible assumption)))
 
-macro "safe_auto" : tactic => `(tactic| repeat' (first | safe_step | split))
+macro "safe_auto" : tactic => `(tactic| repeat' (first | safe_step | split | dsimp only))
 
 -- ===================================================================== arithmetic
 
